@@ -30,6 +30,7 @@ func modeCfg(r *rng) string {
 }
 
 var parseCorpus = []string{
+	"01.5", "00.5", "01e2", "0.5", "0e1", "00", "010", "x = 03.0 + 1", "1.5e3", "09.1",
 	"a\n-= 1", "a\n+= 1", "a\n= 1", "a\n- 1", "a\n== b", "a\n&& b", "a\n* b", "a\n. b", "a\n, b", "a\n? b",
 	"", ";", "a", "a;b", "a b", "let", "let 1; x", "let x = ", "return\nx", "a\n++b", "foo()\n++\nbar()", "a - -b", "x = a + ++b",
 	"if (a) b; else c", "if (a) b\nelse c", "if a", "while (", "for (;;) {}", "for (let i = 0; i < 3; i++) { x }", "for (x;;", "function", "function f", "function f(", "function f(a,", "function f(a,b) {", "function f(1, 2) {}",
